@@ -411,6 +411,26 @@ func (e *c19Env) storagePath(v *accountant.Vertex, label, nontrivKey string) {
 		r.Violate("C19", "silently-changed/"+name+"/"+fieldOnly(d[0]), fmt.Sprintf("ReadTransactionByHash returned a transaction that differs in %v for object [%s]", d, label), nil)
 	} else if verBefore != e.verifies(&out) {
 		r.Violate("C19", "verify-outcome-changed/"+name, fmt.Sprintf("object [%s] verified=%v before and %v after %s", label, verBefore, !verBefore, name), nil)
+	} else {
+		// the code's own verification of the vertex and of the transaction it handed out, then the fields once more
+		uc := *ledger.CloneVertex(&u)
+		want, _ := guardBool(func() bool { return e.realVerify(&uc) })
+		tv := accountant.Vertex{Transaction: trx}
+		gotV, p1 := guardBool(func() bool { return e.realVerify(&out) })
+		gotT, p2 := guardBool(func() bool { return e.realVerify(&tv) })
+		switch {
+		case p1 != nil || p2 != nil:
+			r.Violate("C19", "panic/verify-after/"+name, fmt.Sprintf("verifying object [%s] after %s panicked: %v %v", label, name, p1, p2), nil)
+		case gotV != want || gotT != want:
+			r.Violate("C19", "verify-outcome-changed/own-verification/"+name, fmt.Sprintf("the code's own verification of object [%s] answers %v for the original, %v for the vertex and %v for the transaction read back", label, want, gotV, gotT), nil)
+		default:
+			if d := vrxDiff(&u, &out); len(d) > 0 {
+				r.Violate("C19", "changed-by-verification/"+name+"/"+fieldOnly(d[0]), fmt.Sprintf("object [%s] was read back intact, but verifying it changed %v", label, d), nil)
+			} else if d := trxDiff(&u.Transaction, &tv.Transaction); len(d) > 0 {
+				r.Violate("C19", "changed-by-verification/"+name+"/"+fieldOnly(d[0]), fmt.Sprintf("the transaction of object [%s] was read back intact, but verifying it changed %v", label, d), nil)
+			}
+		}
+		trx = tv.Transaction
 	}
 	r.Nontriv(name + "/" + nontrivKey)
 	// values handed out earlier stay what they were
@@ -456,6 +476,23 @@ func (e *c19Env) resign(v *accountant.Vertex) {
 	v.Hash, v.Signature = e.sealer.W.Sign(ledger.VertexMessage(v))
 }
 
+// realVerify runs the transaction verification of the code under test on the object.
+func (e *c19Env) realVerify(v *accountant.Vertex) bool {
+	if len(v.Transaction.ReceiverSignature) != 0 {
+		return v.Transaction.VerifyIssuerReceiver(e.ver) == nil
+	}
+	return v.Transaction.VerifyIssuer(e.ver) == nil
+}
+
+func guardBool(f func() bool) (res bool, panicked any) {
+	defer func() {
+		if p := recover(); p != nil {
+			panicked = p
+		}
+	}()
+	return f(), nil
+}
+
 func (e *c19Env) verifies(v *accountant.Vertex) bool {
 	ok, _ := ledger.SelfAuthentic(v, nil)
 	return ok
@@ -465,6 +502,8 @@ func (e *c19Env) verifies(v *accountant.Vertex) bool {
 func (e *c19Env) check(v *accountant.Vertex, label string, nontrivKey string) {
 	r := e.w.R
 	verBefore := e.verifies(v)
+	orig := *ledger.CloneVertex(v)
+	realBefore, _ := guardBool(func() bool { return e.realVerify(&orig) })
 	for _, p := range c19Paths {
 		r.Eval(1)
 		out, rej, panicked := guard(func() (accountant.Vertex, string) { return p.run(v) })
@@ -480,6 +519,17 @@ func (e *c19Env) check(v *accountant.Vertex, label string, nontrivKey string) {
 				r.Violate("C19", "silently-changed/"+p.name+"/"+fieldOnly(d[0]), fmt.Sprintf("%s changed %v of object [%s]", p.name, d, label), nil)
 			} else if verBefore != e.verifies(&out) {
 				r.Violate("C19", "verify-outcome-changed/"+p.name, fmt.Sprintf("object [%s] verified=%v before and %v after %s", label, verBefore, !verBefore, p.name), nil)
+			} else {
+				// the code's own verification of the transcoded object (it renders the signed message from the fields it
+				// was handed) must agree with its verification of the original, and must leave the object as it was
+				after, pv := guardBool(func() bool { return e.realVerify(&out) })
+				if pv != nil {
+					r.Violate("C19", "panic/verify-after/"+p.name, fmt.Sprintf("verifying object [%s] after %s panicked: %v", label, p.name, pv), nil)
+				} else if after != realBefore {
+					r.Violate("C19", "verify-outcome-changed/own-verification/"+p.name, fmt.Sprintf("the code's own verification of object [%s] answers %v for the original and %v after %s", label, realBefore, after, p.name), nil)
+				} else if d2 := vrxDiff(v, &out); len(d2) > 0 {
+					r.Violate("C19", "changed-by-verification/"+p.name+"/"+fieldOnly(d2[0]), fmt.Sprintf("object [%s] came back intact from %s, but verifying it changed %v", label, p.name, d2), nil)
+				}
 			}
 			r.Nontriv(p.name + "/" + nontrivKey)
 		}
@@ -654,6 +704,19 @@ func c19CacheLists(w *core.WorkerCtx) {
 				r.Violate("C19", "silently-changed/"+path+"/"+fieldOnly(d[0]), fmt.Sprintf("%s: an entry of a list of %d awaiting transactions differs from the transaction that was saved: %v", path, listLen, d), nil)
 			} else if ok, why := ledger.TrxAuthentic(got); !ok {
 				r.Violate("C19", "verify-outcome-changed/"+path, fmt.Sprintf("%s: an entry of a list of %d awaiting transactions no longer verifies: %s", path, listLen, why), nil)
+			} else {
+				// the code's own verification of the value it handed out, then the fields once more
+				var verr error
+				if len(got.ReceiverSignature) != 0 {
+					verr = got.VerifyIssuerReceiver(wallet.NewVerifier())
+				} else {
+					verr = got.VerifyIssuer(wallet.NewVerifier())
+				}
+				if verr != nil {
+					r.Violate("C19", "verify-outcome-changed/own-verification/"+path, fmt.Sprintf("%s: an entry of a list of %d awaiting transactions is refused by the code's own verification: %v", path, listLen, verr), nil)
+				} else if d2 := trxDiff(&o, got); len(d2) > 0 {
+					r.Violate("C19", "changed-by-verification/"+path+"/"+fieldOnly(d2[0]), fmt.Sprintf("%s: verifying an entry that came back intact changed %v", path, d2), nil)
+				}
 			}
 		}
 		for _, who := range []struct{ name, addr string }{{"issuer", I.Addr}, {"receiver", R.Addr}} {
